@@ -35,7 +35,8 @@ VALUES_MATCHER_OK = ['wl_surface', '.commit', 'A: wl_pointer, wl_surface.[commit
 VALUES_MATCHER_BAD = ['[', 'a.b.c', '(', 'a@b@c', '"', 'wl_surface@3', 'a!b!c', 'x(']
 VALUES_PATH = ['\U0001F600.log', 'dir\U00020000/x', 'file.log', '/tmp/x y.log', 'dir/with"quote', 'back\\slash', 'ünï.log', "it's.log", 'a b c', '$HOME', '`x`', '%s', 'tab\there', '', ' ', '-', '0']
 WORDS = ['\U0001F600', 'prog', 'arg1', '-f', 'x', '-r', '--run', '-g', '--gdb', '--', '', 'a b', '-Cr', '--args', '--ex', 'r', 'q', '-l', 'file', '"q"', 'back\\n', "'s'", 'żółć',
-         '-p', '--supress', '-b', '*', '-Cg', '-lrt', '-rn', '-ggdb', '-vgC', '-gr', '-rf', '--load', '-rC', '-grr']
+         '-p', '--supress', '-b', '*', '-Cg', '-lrt', '-rn', '-ggdb', '-vgC', '-gr', '-rf', '--load', '-rC', '-grr',
+         '~', '~/build/app', '~root', '$HOME', '`id`', '$(id)', 'a;b', '*.log', '{a,b}', '%s', '%(x)s', '{0}', '\\', '#c']
 
 
 def plan(tier, seed):
